@@ -49,6 +49,8 @@ static double pdf1(int id, double x)
 		case 20: return std::exp(-0.5 * x * x);
 		case 21: return std::exp(-std::fabs(x));
 		case 22: return 4.0 * std::exp(-0.5 * x * x);
+		case 24: return std::fabs(x - 5.0) < 1.0 ? 1.0 - std::fabs(x - 5.0) : 0.0;	// triangle on [4,6]: support is a small part of a wide domain
+		case 25: return (x >= 2.0 && x <= 3.0) ? 1.0 : 0.0;						// box on [2,3]
 		case 23: return std::exp(-0.5 * (x - 50.0) * (x - 50.0) / 0.25);   // narrow peak: underflows to exactly 0 beyond |x-50| > 19.4
 	}
 	return 0.0;
